@@ -15,6 +15,26 @@ def showDic (d : List (List UInt8 × List UInt8)) : String :=
   let s := " ".intercalate (d.map fun kv => hex kv.1 ++ ":" ++ hex kv.2)
   if s.isEmpty then "{}" else s
 
+def fnv (h : UInt64) (b : UInt8) : UInt64 := (h ^^^ b.toUInt64) * 1099511628211
+
+/-- every string of length `L` over `alpha` through the decoder model; FNV-1a digest of all results -/
+def b64ex (alpha : Array UInt8) (L : Nat) : String := Id.run do
+  let n := alpha.size
+  let total := n ^ L
+  let mut h : UInt64 := 1469598103934665603
+  for k in [0:total] do
+    let mut x := k
+    let mut s : List UInt8 := []
+    for _ in [0:L] do
+      s := alpha[x % n]! :: s
+      x := x / n
+    let r := Codec.decodeBase64 s
+    h := fnv h (UInt8.ofNat (r.length % 256))
+    for b in r do
+      h := fnv h b
+  let bytes := (List.range 8).map fun i => UInt8.ofNat ((h >>> (UInt64.ofNat (8 * i))).toNat % 256)
+  return s!"{total} {hex bytes}"
+
 def parsePair (s : String) : Option (List UInt8 × List UInt8) :=
   match s.splitOn ":" with
   | [a, b] => do pure ((← unhex a), (← unhex b))
@@ -32,6 +52,9 @@ def step (_ : Unit) (ts : List String) : Unit × String :=
       | some d, some k => if k ≤ d.length then lenHex (Codec.decodeBase64 (d.take k)) else "bad-op"
       | _, _ => "bad-op"
     | ["sha1r", _, _, _] => "ok"   -- the digest given on the line is python hashlib's; `sha1_eq_standard` says the code must produce it
+    | ["b64ex", a, l] => match unhex a, l.toNat? with
+      | some al, some L => if al.isEmpty || L > 10 then "bad-op" else b64ex al.toArray L
+      | _, _ => "bad-op"
     | ["b64rt", h] => match unhex h with
       | some d => lenHex (Codec.decodeBase64 (Codec.encodeBase64 d)) | none => "bad-op"
     | ["hexenc", h] => match unhex h with
